@@ -973,6 +973,13 @@ class Interp:
             if isinstance(v, (list, tuple)):
                 return Enum("Option", "Some", {"0": v[0]}) if v else Enum("Option", "None")
             raise Unknown("peek on %r" % (v,))
+        if gen == "core::iter::adapters::zip::zip" and len(args) == 2:
+            a0, b0 = self.ev(args[0], env, depth), self.ev(args[1], env, depth)
+            a0 = a0.get() if isinstance(a0, Ref) else a0
+            b0 = b0.get() if isinstance(b0, Ref) else b0
+            if isinstance(a0, (list, tuple)) and isinstance(b0, (list, tuple)):
+                return [(x_, y_) for x_, y_ in zip(a0, b0)]
+            raise Unknown("zip of %r and %r" % (a0, b0))
         if gen in LIST_IDENTITY:
             v = self.ev(args[0], env, depth)
             if isinstance(v, Ref) and isinstance(v.get(), (HSet, HMap, list)):
